@@ -184,6 +184,10 @@ func (w *Writer) writeWithAutoLineBreak(s string, useContinueMark bool, useBlock
 }
 
 func (w *Writer) WriteSpaces(l int) {
+	// The callers pass "column width - text width": a text wider than its column gets no padding.
+	if l < 0 {
+		l = 0
+	}
 	w.Write(strings.Repeat(" ", l))
 }
 
